@@ -91,9 +91,7 @@ def proj_c17(calls):
 def proj_c20(calls):
     out = []
     for c in calls:
-        # listeners registered after the execution engine's see the API object as a nested completion left it
-        # (finding K17): identifiers are compared for the EE's own listener and for all other kinds only
-        evs = [(e[:7] if (e[1] != "ss" or e[2] == 0) else e[:5]) for e in c["out"] if e[0] == "INV"]
+        evs = [e[:7] for e in c["out"] if e[0] == "INV"]
         out.append([c["op"]["op"], c["op"].get("kind"), c["op"].get("fn"), c["ret"], c["exc"], evs])
     return out
 
